@@ -484,71 +484,6 @@ pub fn run_decode_engine(ctx: &Ctx, prop: &'static str) -> Report {
     rep
 }
 
-pub fn c02(ctx: &Ctx) -> (Report, Meta) {
-    let mut rep = run_decode_engine(ctx, "C02");
-    // raw buffers: scan + decode everything found
-    let raw = crate::frame::enumerate_buffers(ctx.tier, &|rep, buf, desc| {
-        rep.transitions += 1;
-        let r = catch(|| {
-            let mut it = MsgFrameIter::new(buf);
-            let mut n = 0usize;
-            let mut selfeq = true;
-            for f in &mut it {
-                let m = f.get_message();
-                #[allow(clippy::eq_op)]
-                if m != m {
-                    selfeq = false;
-                }
-                n += 1;
-                if n > buf.len() + 2 {
-                    return (usize::MAX, selfeq);
-                }
-            }
-            (n, selfeq)
-        });
-        match r {
-            Err(p) => rep.violation("C02", panic_key(&p, "raw"), format!("scanning/decoding a raw buffer panicked at {}: {}", p.location, p.message), buf.len() as u64, json!({"kind":"scan","bytes":hex(buf),"desc":desc()})),
-            Ok((usize::MAX, _)) => rep.violation("C02", "raw:iterator-does-not-terminate".into(), "frame iterator does not terminate".into(), buf.len() as u64, json!({"kind":"scan","bytes":hex(buf),"desc":desc()})),
-            Ok((_, false)) => rep.violation("C02", "raw:self-inequality".into(), "decoded message != itself".into(), buf.len() as u64, json!({"kind":"scan","bytes":hex(buf),"desc":desc()})),
-            Ok((n, true)) => {
-                rep.traces += 1;
-                if n > 0 {
-                    rep.outcome("raw-buffer-with-frames");
-                } else {
-                    rep.outcome("raw-buffer-without-frames");
-                }
-            }
-        }
-    });
-    rep.merge(raw);
-    rep.distinct_nontrivial = rep.states;
-    rep.sample(json!({"number":1077,"base":"ones","level":1,"deviations":[{"bit_offset":73,"bits":64,"value":"0x8000000000000000 (one satellite)"}],"expect":"typed or Corrupt, no panic"}));
-    rep.sample(json!({"number":1004,"base":"zero","level":1,"deviations":[{"bit_offset":55,"bits":5,"value":"every 0..31"}],"then":"T = needed, needed-1 bytes"}));
-    let thorough = ctx.tier.thorough();
-    let meta = Meta {
-        rule: "for every supported message number and every base payload (zero, ones, the repository's testdata payloads zero-extended to 1023 bytes, + a counter pattern in thorough): the 0-deviation run, every payload length 0..=1023, every single-field deviation (positions from the H2 parse trace; all 2^len values for len<=8, boundary values and mask patterns above), payload lengths 'needed' and 'needed-1' for typed results; thorough adds 2 deviations (control field at each boundary value x every later field at its boundary alphabet; control pairs first). Plus raw buffers: alphabet strings, token streams and buffers beyond 1029 bytes scanned with MsgFrameIter and every frame decoded. Oracle: no panic, a documented outcome, m == m, no NaN/inf in the Debug rendering (scanned for the first execution of every distinct parse-trace shape; per-field finiteness over all patterns is C08's). states = distinct (parse-trace shape, outcome) pairs; transitions = decoder executions".into(),
-        exhaustive: false,
-        bounds: json!({"deviation_bound": if thorough {2} else {1}, "level2_cap_per_base": if thorough {400000} else {0}, "payload_lengths":"0..=1023 at level 0", "note":"deviation-bounded: complete for <= bound deviations from each base within the stated alphabets; where the level-2 cap was hit the evidence counts it"}),
-        assumptions: vec!["field positions come from the parse trace of the parent run (a field's position depends only on earlier fields)".into()],
-    };
-    (rep, meta)
-}
-
-/// C01 part A (decoded messages are fixed points); part B lives in the serde-enabled binary.
-pub fn c01a(ctx: &Ctx) -> (Report, Meta) {
-    let mut rep = run_decode_engine(ctx, "C01");
-    rep.distinct_nontrivial = rep.traces;
-    rep.sample(json!({"part":"A","number":1059,"base":"testdata0","level":1,"oracle":"decode(encode(m)) == m up to the order of satellite groups"}));
-    let thorough = ctx.tier.thorough();
-    let meta = Meta {
-        rule: "part A: every typed message obtained by the deviation-bounded decode exploration (all supported numbers x bases x 0/1(/2) field deviations) is handed to the real encoder; whenever it is accepted, decoding the built frame must return the same variant and an equal message (1059/1065: after a stable sort of the bias list by satellite). traces_validated = typed messages accepted by the encoder and compared".into(),
-        exhaustive: false,
-        bounds: json!({"deviation_bound": if thorough {2} else {1}}),
-        assumptions: vec![],
-    };
-    (rep, meta)
-}
-
 /// typed messages decoded from the level-0 bases (used by C12's pool)
 pub fn base_messages() -> Vec<(String, Vec<u8>)> {
     let nums: Vec<u16> = feature_numbers().into_iter().collect();
